@@ -257,3 +257,36 @@ func allAnon(f *ssa.Function) []*ssa.Function {
 	}
 	return out
 }
+
+// everyIteration: within the innermost loop around `in`, every iteration that returns to the loop
+// header has executed `in` (iterations that panic or leave the function are not counted).
+func everyIteration(in ssa.Instruction) bool {
+	l := innermostLoop(in.Block())
+	if l == nil {
+		return false
+	}
+	hdr := l.Header.Instrs[len(l.Header.Instrs)-1]
+	rq := NewReach(in.Parent())
+	rq.CutInstrs[in] = true
+	return !rq.After(hdr)[hdr]
+}
+
+// checkCollectors: a GetAll* accessor returns every entry it visits — its append runs on every
+// iteration of its loop (the one designed filter, GetAllActiveConsumerIds, is decided by C05.R4).
+func checkCollectors(c *Ctx, pkg string, names ...string) {
+	for _, n := range names {
+		f := c.Fn(pkg + ".Keeper." + n)
+		if f == nil {
+			continue
+		}
+		k := 0
+		for _, a := range Calls(f, false, "builtin.append") {
+			if !inLoop(a) {
+				continue
+			}
+			k++
+			c.Check(everyIteration(a), fk(f, "collects-every-entry"), a, n+" appends on every iteration of its loop (no entry is skipped)")
+		}
+		c.Check(k > 0, fk(f, "collects-every-entry", "census"), f, fmt.Sprintf("%d collecting appends in %s", k, n))
+	}
+}
